@@ -976,3 +976,190 @@ def r20e(R):
             'is active: a running background script is reported as not running '
             'while any foreground job executes, so it is started a second time '
             'and cannot be stopped by name')
+
+
+# ---------------------------------------------------------------- R18.d
+@rule('R18.d', ('C18', 'C20'), 'the capture walks every light (no filter = '
+      'all), writes each part of the script, and says "no lights" only when '
+      'there are none', floor=14,
+      decides='the captured script restores every light, zone and cell and '
+              'always compiles')
+def r18d(R):
+    A = R.A
+    sn = A.cls(SNAPSHOT, 'Snapshot')
+    ss = A.cls(SNAPSHOT, 'ScriptSnapshot')
+    gen = sn.methods['generate']
+    cfg = A.cfg(gen)
+    flt = gen.params[1]
+    # (a) no filter -> every light included; the per-light part runs iff included
+    inc_true = [n for n in cfg.nodes if n.kind == 'stmt' and isinstance(n.ast, ast.Assign)
+                and isinstance(n.ast.value, ast.Constant) and n.ast.value.value is True
+                and isinstance(n.ast.targets[0], ast.Name)]
+    inc_var = None
+    for n in inc_true:
+        if ('%s is None' % flt, True) in A.path_facts(gen, n):
+            inc_var = n.ast.targets[0].id
+    R.check(gen, 'filter is None -> include every light', inc_var is not None,
+            'without a filter (the capture button, `lscap -s`) a light is not '
+            'unconditionally included: the capture is empty or raises')
+    uses = [n for n in cfg.nodes for c in n.calls()
+            if isinstance(c.func, ast.Attribute) and isinstance(c.func.value, ast.Name)
+            and c.func.value.id == flt]
+    ok = all(('%s is None' % flt, False) in A.path_facts(gen, n) for n in uses)
+    R.check(gen, 'the filter is consulted only when there is one', ok,
+            'the filter object is used on the path where it is None')
+    parts = [n for n in cfg.nodes for c in n.calls()
+             if isinstance(c.func, ast.Attribute) and norm(c.func.value) == 'self'
+             and c.func.attr in ('start_light', 'light', 'power', 'end_light',
+                                 'start_multizone', 'multizone', 'end_multizone',
+                                 'start_matrix', 'matrix', 'end_matrix')]
+    if inc_var:
+        ok = bool(parts) and all((inc_var, True) in A.path_facts(gen, n) for n in parts)
+        R.check(gen, 'a light is written iff it is included', ok,
+                'the per-light part of the capture is not guarded by the '
+                'include test (inverted or missing): the wrong lights - or '
+                'none - are captured')
+    # each kind of light: start / body / end on every pass of its branch
+    for kind, seq in (('MultizoneLight', ('start_multizone', 'multizone', 'end_multizone')),
+                      ('MatrixLight', ('start_matrix', 'matrix', 'end_matrix')),
+                      (None, ('start_light', 'light', 'power', 'end_light'))):
+        # only the parts the *script* form gives a body to (the others are
+        # layout of the text form)
+        def has_body(name):
+            m = ss.lookup(name)
+            return m is not None and not all(
+                isinstance(s, ast.Pass) or (isinstance(s, ast.Expr)
+                                            and isinstance(s.value, ast.Constant))
+                for s in m.node.body)
+        seq = tuple(name for name in seq if has_body(name))
+        nodes = [[n for n in parts for c in n.calls()
+                  if isinstance(c.func, ast.Attribute) and c.func.attr == name]
+                 for name in seq]
+        ok = all(nodes) and bool(nodes)
+        if ok:
+            first = nodes[0]
+            for later in nodes[1:]:
+                if cfg.find_path([m for n in first for m, _l in n.succs],
+                                 lambda n: n.kind == 'for' or n is cfg.exit,
+                                 avoid=later) is not None:
+                    ok = False
+        R.check(gen, '%s: %s' % (kind or 'plain light', ' < '.join(seq)), ok,
+                'a %s is not written completely (a part of the sequence %s '
+                'can be skipped): the script does not restore it, or - a '
+                'missing begin / end - does not compile'
+                % (kind or 'plain light', ', '.join(seq)))
+    # (b) "No lights found." only when nothing was found
+    found_true = [n for n in cfg.nodes if n.kind == 'stmt' and isinstance(n.ast, ast.Assign)
+                  and isinstance(n.ast.value, ast.Constant) and n.ast.value.value is True
+                  and isinstance(n.ast.targets[0], ast.Name)
+                  and n.ast.targets[0].id != inc_var]
+    fvars = set(n.ast.targets[0].id for n in found_true
+                if inc_var and (inc_var, True) in A.path_facts(gen, n))
+    note = [n for n in cfg.nodes for c in n.calls()
+            if isinstance(c.func, ast.Attribute) and c.func.attr == 'append'
+            and c.args and 'No lights' in str(A.try_fold(c.args[0], gen, ''))]
+    ok = (not note) or all(
+        any((v, False) in A.path_facts(gen, n) for v in fvars) for n in note)
+    R.check(gen, '"No lights found." only when no light was included', ok,
+            'the remark "No lights found." is appended to a capture that '
+            'contains lights (or `found` is set for lights that were not '
+            'included): the script ends in a line that does not compile')
+    # (c) the text starts as an empty string
+    st = sn.methods['start_snapshot']
+    ok = any(isinstance(n, ast.Assign) and self_attr(n.targets[0]) == '_text'
+             and A.try_fold(n.value, st, None) == '' for n in walk_own(st.node))
+    R.check(st, 'start_snapshot: text = ""', ok,
+            'the capture text is not initialised to an empty string: the '
+            'first append raises')
+    sup = [c for c in A.calls_in(ss.methods['start_snapshot'])
+           if isinstance(c.func, ast.Attribute) and c.func.attr == 'start_snapshot']
+    R.check(ss.methods['start_snapshot'], 'ScriptSnapshot.start_snapshot calls the base',
+            bool(sup), 'the script capture does not initialise its text')
+    # (d) every writer method of the script form appends on every path
+    for mname in ('setting', 'end_light', 'zone', 'start_matrix', 'matrix_cell',
+                  'end_matrix', 'power'):
+        m = ss.methods.get(mname)
+        if m is None:
+            raise AnalysisError('ScriptSnapshot.%s vanished' % mname)
+        mcfg = A.cfg(m)
+        app = [n for n in mcfg.nodes for c in n.calls()
+               if isinstance(c.func, ast.Attribute) and c.func.attr == 'append'
+               and norm(c.func.value) == 'self']
+        p = mcfg.find_path([mcfg.entry], lambda n: n is mcfg.exit, avoid=app) \
+            if app else []
+        R.check(m, 'ScriptSnapshot.%s appends its line' % mname,
+                bool(app) and p is None,
+                'ScriptSnapshot.%s can return without writing its line: that '
+                'part of the light\'s state is missing from the script' % mname)
+        # a field that follows the word naming a parameter is that parameter
+        for c in A.calls_in(m):
+            if not (isinstance(c.func, ast.Attribute) and c.func.attr == 'format'):
+                continue
+            tmpl = A.try_fold(c.func.value, m)
+            if not isinstance(tmpl, str):
+                continue
+            words = tmpl.replace('{}', ' {} ').split()
+            k = 0
+            for i, w in enumerate(words):
+                if w != '{}':
+                    continue
+                prev = words[i - 1] if i else ''
+                if prev in m.params and k < len(c.args):
+                    R.check(m, '%s: field after "%s" is %s' % (mname, prev, norm(c.args[k])),
+                            norm(c.args[k]) == prev,
+                            'the %s written into the script is `%s`: rows and '
+                            'columns (or zone numbers) are exchanged'
+                            % (prev, norm(c.args[k])))
+                k += 1
+    # colour before the addressing line
+    for mname in ('zone', 'matrix_cell'):
+        m = ss.methods[mname]
+        mcfg = A.cfg(m)
+        col = [n for n in mcfg.nodes for c in n.calls()
+               if isinstance(c.func, ast.Attribute) and c.func.attr == 'color']
+        app = [n for n in mcfg.nodes for c in n.calls()
+               if isinstance(c.func, ast.Attribute) and c.func.attr == 'append']
+        ok = bool(col and app) and mcfg.find_path(
+            [mcfg.entry], lambda n: n in app, avoid=col) is None
+        R.check(m, '%s: colour registers before the set/stage line' % mname, ok,
+                'the %s line is written without its colour' % mname)
+    li = sn.methods['light']
+    ok = any(isinstance(c.func, ast.Attribute) and c.func.attr == 'color'
+             and c.args and isinstance(c.args[0], ast.Call)
+             and isinstance(c.args[0].func, ast.Attribute)
+             and c.args[0].func.attr == 'get_color' for c in A.calls_in(li))
+    R.check(li, 'plain light: color(light.get_color())', ok,
+            'a plain light\'s colour is not written')
+    mz = sn.methods['multizone']
+    ok = False
+    for n in walk_own(mz.node):
+        if isinstance(n, ast.For):
+            it = n.iter
+            if isinstance(it, ast.Call) and norm(it.func) == 'enumerate' and it.args:
+                it = it.args[0]
+            if isinstance(it, ast.BoolOp):
+                ok = isinstance(it.op, ast.Or) and any(
+                    isinstance(v, ast.Call) and isinstance(v.func, ast.Attribute)
+                    and v.func.attr == 'get_zone_colors' for v in it.values)
+            elif isinstance(it, ast.Call) and isinstance(it.func, ast.Attribute) \
+                    and it.func.attr == 'get_zone_colors':
+                ok = True
+    R.check(mz, 'multizone: every zone of get_zone_colors() (or none if it failed)',
+            ok, 'the zones written are not those the light reports')
+    # (e) the web capture writes that text to the file
+    ws = A.func(WEBAPP, 'WebApp.snapshot')
+    writes = [c for c in A.calls_in(ws)
+              if isinstance(c.func, ast.Attribute) and c.func.attr == 'write' and c.args]
+    ok = any('generate' in norm(c.args[0]) and 'ScriptSnapshot' in norm(c.args[0])
+             and norm(c.args[0]).endswith('.text') for c in writes)
+    R.check(ws, 'WebApp.snapshot writes ScriptSnapshot().generate(None).text', ok,
+            'the capture button does not write the captured script')
+    for f in (ws, A.func('bardolph.parser.parse', 'Parser.parse_file')):
+        for c in A.calls_in(f):
+            if isinstance(c.func, ast.Name) and c.func.id == 'open' and c.args:
+                first = A.try_fold(c.args[0], f, None)
+                R.check(f, c, not (isinstance(first, str) and first in (
+                    'r', 'w', 'a', 'rb', 'wb', 'r+', 'w+')),
+                    'open() is called with the mode where the file name '
+                    'belongs: the file is never read / written',
+                    line=c.lineno)
